@@ -61,4 +61,17 @@ theorem pathChoice_parseRequestURI_abs {raw sch rest a q : Bytes} {u : Url}
           exact pathChoice_setPath ⟨q, rfl⟩ h
         · cases h
 
+/-- absolute-form targets: the authority only gates success; Path / RawPath come from the text after it -/
+theorem parseRequestURI_abs {raw sch rest a : Bytes} (hctl : containsCTL raw = false)
+    (hsch : getScheme true [] raw = some (some (sch, rest))) (hr : beforeQuery rest = 47 :: 47 :: a) :
+    parseRequestURI raw =
+      some (if authorityOk (a.takeWhile (· != 47)) then setPath (a.dropWhile (· != 47)) else none) := by
+  have hne : raw ≠ [] := by intro e; subst e; simp [getScheme] at hsch
+  have h42 : raw ≠ [42] := by intro e; subst e; simp [getScheme, isLetter] at hsch
+  unfold parseRequestURI
+  simp only [hctl, Bool.false_eq_true, ↓reduceIte, hne, h42, hsch, hr]
+  split <;> rfl
+
+theorem pathChoice_empty : pathChoice ⟨[], []⟩ = [] := by decide
+
 end GB.C03
